@@ -10,6 +10,19 @@ theorem SrvWF.userOK {s : Srv} (h : SrvWF s) {k : Str} {u : SUser} (hu : aget s.
   let ⟨a, b, c, d⟩ := h.users k u hu
   ⟨a, nickOK_of_valid b, wordOK_of_valid c, wordOK_of_valid d⟩
 
+/-- the invariant only looks at the configuration, the users, the channels and the bot's nick -/
+theorem wf_congr {s s' : Srv} (h : SrvWF s) (h1 : s'.cfg = s.cfg) (h2 : s'.users = s.users) (h3 : s'.chans = s.chans)
+    (h4 : s'.bot = s.bot) : SrvWF s' where
+  cfg := by rw [h1]; exact h.cfg
+  users := by rw [h2]; exact h.users
+  bot := by rw [h2, h4]; exact h.bot
+  chansNodup := by rw [h3]; exact h.chansNodup
+  chans := by
+    intro k sc hsc
+    rw [h3] at hsc
+    have := h.chans k sc hsc
+    exact ⟨this.key, this.name, by rw [h2]; exact this.members, this.modesNodup, this.modes⟩
+
 theorem Srv.user_eq (s : Srv) (n : Str) : s.user n = aget s.users (lower n) := rfl
 theorem Srv.chan_eq (s : Srv) (n : Str) : s.chan n = aget s.chans (lower n) := rfl
 
@@ -17,7 +30,6 @@ theorem Srv.chan_eq (s : Srv) (n : Str) : s.chan n = aget s.chans (lower n) := r
 theorem wf_setChan {s : Srv} (h : SrvWF s) (k : Str) (sc : SChan) (hsc : ChanWF s k sc) :
     SrvWF { s with chans := aset s.chans k sc } where
   cfg := h.cfg
-  mp := h.mp
   users := h.users
   bot := h.bot
   chansNodup := nodup_akeys_aset h.chansNodup k sc
@@ -35,7 +47,6 @@ theorem wf_setChan {s : Srv} (h : SrvWF s) (k : Str) (sc : SChan) (hsc : ChanWF 
 
 theorem wf_delChan {s : Srv} (h : SrvWF s) (k : Str) : SrvWF { s with chans := adel s.chans k } where
   cfg := h.cfg
-  mp := h.mp
   users := h.users
   bot := h.bot
   chansNodup := nodup_akeys_adel h.chansNodup k
@@ -71,7 +82,7 @@ theorem wf_connect {s : Srv} (h : SrvWF s) (n i ho : Str) : SrvWF (s.step (.conn
     simp only [Bool.and_eq_true, Option.isNone_iff_eq_none] at hc
     obtain ⟨⟨⟨hn, hi⟩, hh⟩, hfree⟩ := hc
     rw [Srv.user_eq] at hfree
-    refine ⟨h.cfg, h.mp, ?_, ?_, h.chansNodup, ?_⟩
+    refine ⟨h.cfg, ?_, ?_, h.chansNodup, ?_⟩
     · intro k u hg
       simp only [aget_aset] at hg
       by_cases hk : lower n = k
@@ -110,18 +121,74 @@ theorem wf_topic {s : Srv} (h : SrvWF s) (src c t : Str) : SrvWF (s.step (.topic
   · exact h
 
 theorem wf_names {s : Srv} (h : SrvWF s) (c : Str) : SrvWF (s.step (.names c)).1 := by
-  simp only [Srv.step]; split <;> exact h
+  simp only [Srv.step]
+  split
+  · split
+    · exact wf_congr h rfl rfl rfl rfl
+    · exact h
+  · exact h
 
-theorem wf_who {s : Srv} (h : SrvWF s) (c : Str) : SrvWF (s.step (.who c)).1 := by
-  simp only [Srv.step]; split <;> exact h
+theorem wf_replyWho {s : Srv} (h : SrvWF s) (c : Str) : SrvWF (s.replyWho c).1 := by
+  unfold Srv.replyWho; split
+  · exact wf_congr h rfl rfl rfl rfl
+  · exact h
 
-theorem wf_modeis {s : Srv} (h : SrvWF s) (c : Str) : SrvWF (s.step (.modeis c)).1 := by
-  simp only [Srv.step]; split <;> exact h
+theorem wf_replyMode {s : Srv} (h : SrvWF s) (c : Str) : SrvWF (s.replyMode c).1 := by
+  unfold Srv.replyMode; split
+  · exact wf_congr h rfl rfl rfl rfl
+  · exact h
 
-theorem wf_banlist {s : Srv} (h : SrvWF s) (c : Str) : SrvWF (s.step (.banlist c)).1 := by
-  simp only [Srv.step]; split <;> exact h
+theorem wf_replyBans {s : Srv} (h : SrvWF s) (c : Str) : SrvWF (s.replyBans c).1 := by
+  unfold Srv.replyBans; split
+  · exact wf_congr h rfl rfl rfl rfl
+  · exact h
+
+theorem wf_who {s : Srv} (h : SrvWF s) (c : Str) : SrvWF (s.step (.who c)).1 := wf_replyWho h c
+theorem wf_modeis {s : Srv} (h : SrvWF s) (c : Str) : SrvWF (s.step (.modeis c)).1 := wf_replyMode h c
+theorem wf_banlist {s : Srv} (h : SrvWF s) (c : Str) : SrvWF (s.step (.banlist c)).1 := wf_replyBans h c
+
+theorem wf_serve {s : Srv} (h : SrvWF s) : SrvWF (s.step .serve).1 := by
+  simp only [Srv.step]
+  split
+  · exact h
+  · rename_i c rest _
+    exact wf_replyWho (s := { s with pending := rest }) (wf_congr h rfl rfl rfl rfl) c
+  · rename_i c rest _
+    exact wf_replyMode (s := { s with pending := rest }) (wf_congr h rfl rfl rfl rfl) c
+  · rename_i c rest _
+    exact wf_replyBans (s := { s with pending := rest }) (wf_congr h rfl rfl rfl rfl) c
+
+theorem wf_enqueue {s : Srv} (h : SrvWF s) (out : List Msg) : SrvWF (s.enqueue out) := wf_congr h rfl rfl rfl rfl
 
 /-! #### chghost -/
+
+theorem wf_setHost {s : Srv} (h : SrvWF s) {k : Str} {u : SUser} (hu : aget s.users k = some u) {i ho : Str}
+    (hi : validWord i = true) (hh : validWord ho = true) :
+    SrvWF { s with users := aset s.users k { u with ident := i, host := ho } } := by
+  have hv := h.users _ _ hu
+  refine ⟨h.cfg, ?_, ?_, h.chansNodup, ?_⟩
+  · intro k' u' hg
+    simp only [aget_aset] at hg
+    by_cases hk : k = k'
+    · simp only [hk, ↓reduceIte, Option.some.injEq] at hg
+      subst hg
+      exact ⟨hk ▸ hv.1, hv.2.1, hi, hh⟩
+    · simp only [hk, ↓reduceIte] at hg
+      exact h.users k' u' hg
+  · obtain ⟨ub, hub, hnick⟩ := h.bot
+    simp only [aget_aset]
+    by_cases hk : k = lower s.bot
+    · refine ⟨{ u with ident := i, host := ho }, by simp [hk], ?_⟩
+      rw [hk, hub] at hu; cases hu; exact hnick
+    · exact ⟨ub, by simp [hk, hub], hnick⟩
+  · intro k' sc hg
+    have := h.chans k' sc hg
+    refine ⟨this.key, this.name, ?_, this.modesNodup, this.modes⟩
+    intro p hp
+    simp only [aget_aset]
+    by_cases hk : k = p.1
+    · simp [hk]
+    · simp only [hk, ↓reduceIte]; exact this.members p hp
 
 theorem wf_chghost {s : Srv} (h : SrvWF s) (n i ho : Str) : SrvWF (s.step (.chghost n i ho)).1 := by
   simp only [Srv.step]
@@ -133,31 +200,11 @@ theorem wf_chghost {s : Srv} (h : SrvWF s) (n i ho : Str) : SrvWF (s.step (.chgh
     · exact h
     · rename_i hc
       simp only [Bool.or_eq_true, Bool.not_eq_eq_eq_not, Bool.not_true, not_or, Bool.not_eq_false] at hc
-      obtain ⟨⟨_, hi⟩, hh⟩ := hc
-      have hv := h.users _ _ hu
-      refine ⟨h.cfg, h.mp, ?_, ?_, h.chansNodup, ?_⟩
-      · intro k u' hg
-        simp only [aget_aset] at hg
-        by_cases hk : lower n = k
-        · simp only [hk, ↓reduceIte, Option.some.injEq] at hg
-          subst hg
-          exact ⟨hk ▸ hv.1, hv.2.1, hi, hh⟩
-        · simp only [hk, ↓reduceIte] at hg
-          exact h.users k u' hg
-      · obtain ⟨ub, hub, hnick⟩ := h.bot
-        simp only [aget_aset]
-        by_cases hk : lower n = lower s.bot
-        · refine ⟨{ u with ident := i, host := ho }, by simp [hk], ?_⟩
-          rw [hk, hub] at hu; cases hu; exact hnick
-        · exact ⟨ub, by simp [hk, hub], hnick⟩
-      · intro k sc hg
-        have := h.chans k sc hg
-        refine ⟨this.key, this.name, ?_, this.modesNodup, this.modes⟩
-        intro p hp
-        simp only [aget_aset]
-        by_cases hk : lower n = p.1
-        · simp [hk]
-        · simp only [hk, ↓reduceIte]; exact this.members p hp
+      split
+      · exact wf_congr (wf_setHost h hu hc.1 hc.2) rfl rfl rfl rfl
+      · split
+        · exact h
+        · exact wf_congr (wf_setHost h hu hc.1 hc.2) rfl rfl rfl rfl
 
 /-! #### mode -/
 
@@ -425,7 +472,10 @@ theorem joinBot_wf (u : SUser) (cs : List Str) {s : Srv} (h : SrvWF s) : SrvWF (
     · exact ih h
     · rename_i s1 name he
       obtain ⟨ub, hub, _⟩ := h.bot
-      exact ih (enter_wf h (by simp [Srv.botKey, hub]) he)
+      have h1 : SrvWF s1 := enter_wf h (by simp [Srv.botKey, hub]) he
+      split
+      · exact ih h1
+      · exact ih (wf_congr h1 rfl rfl rfl rfl)
 
 theorem wf_join {s : Srv} (h : SrvWF s) (n : Str) (cs : List Str) : SrvWF (s.step (.join n cs)).1 := by
   simp only [Srv.step]
@@ -435,7 +485,10 @@ theorem wf_join {s : Srv} (h : SrvWF s) (n : Str) (cs : List Str) : SrvWF (s.ste
     rw [Srv.user_eq] at hu
     split
     · exact joinBot_wf u cs h
-    · exact joinOthers_wf _ cs h (by simp [hu])
+    · have := joinOthers_wf (lower n) cs h (by simp [hu])
+      split
+      · exact this
+      · exact wf_congr this rfl rfl rfl rfl
 
 /-! #### quit, nick, reconnect -/
 
@@ -484,7 +537,7 @@ theorem wf_quit {s : Srv} (h : SrvWF s) (n r : Str) : SrvWF (s.step (.quit n r))
     · rename_i hc
       simp only [Bool.or_eq_true, decide_eq_true_eq, Bool.not_eq_eq_eq_not, Bool.not_true, not_or, Bool.not_eq_false] at hc
       obtain ⟨hnb, _⟩ := hc
-      refine ⟨h.cfg, h.mp, ?_, ?_, nodup_dropEverywhere h.chansNodup _, ?_⟩
+      refine ⟨h.cfg, ?_, ?_, nodup_dropEverywhere h.chansNodup _, ?_⟩
       · intro k u' hg
         have e : ({ s.dropEverywhere (lower n) with users := adel s.users (lower n) } : Srv).users = adel s.users (lower n) := rfl
         rw [e, aget_adel] at hg
@@ -535,7 +588,7 @@ theorem wf_nick {s : Srv} (h : SrvWF s) (n n' : Str) : SrvWF (s.step (.nick n n'
       have husers : ∀ k, aget (aset (adel s.users (lower n)) (lower n') { u with nick := n' }) k =
           if lower n' = k then some { u with nick := n' } else if lower n = k then none else aget s.users k := by
         intro k; rw [aget_aset, aget_adel]
-      refine ⟨h.cfg, h.mp, ?_, ?_, ?_, ?_⟩
+      refine ⟨h.cfg, ?_, ?_, ?_, ?_⟩
       · intro k u' hg
         simp only [husers] at hg
         by_cases hk : lower n' = k
@@ -610,7 +663,7 @@ theorem wf_reconnect {s : Srv} (h : SrvWF s) : SrvWF (s.step .reconnect).1 := by
       have husers : ∀ k, aget (aset (adel (s.dropEverywhere s.botKey).users s.botKey) (lower s.cfg.botNick) { u with nick := s.cfg.botNick }) k =
           if lower s.cfg.botNick = k then some { u with nick := s.cfg.botNick } else if s.botKey = k then none else aget s.users k := by
         intro k; rw [aget_aset, aget_adel, hde]
-      refine ⟨h.cfg, h.mp, ?_, ?_, nodup_dropEverywhere h.chansNodup _, ?_⟩
+      refine ⟨h.cfg, ?_, ?_, nodup_dropEverywhere h.chansNodup _, ?_⟩
       · intro k u' hg
         simp only [husers] at hg
         by_cases hk : lower s.cfg.botNick = k
@@ -651,13 +704,14 @@ theorem wf_step {s : Srv} (h : SrvWF s) (a : Act) (ha : a.ok) : SrvWF (s.step a)
   | who c => exact wf_who h c
   | modeis c => exact wf_modeis h c
   | banlist c => exact wf_banlist h c
+  | serve => exact wf_serve h
   | reconnect => exact wf_reconnect h
 
-theorem wf_init (cfg : Cfg) (hv : cfg.valid = true) (hmp : cfg.multiPrefix = true) : SrvWF (Srv.init cfg) := by
+theorem wf_init (cfg : Cfg) (hv : cfg.valid = true) : SrvWF (Srv.init cfg) := by
   have hcfg := hv
   unfold Cfg.valid at hcfg
   simp only [Bool.and_eq_true] at hcfg
-  refine ⟨hv, hmp, ?_, ?_, by simp [Srv.init, akeys], ?_⟩
+  refine ⟨hv, ?_, ?_, by simp [Srv.init, akeys], ?_⟩
   · intro k u hg
     simp only [Srv.init, aget_cons, aget_nil] at hg
     split at hg
